@@ -20,7 +20,7 @@ class DesignPartitions():
         self._block = block
         self._crossed = None
         self.main_crossing = 0
-        while (block.crossing_sustain_counts[self.main_crossing] != 1):
+        while (block.crossings != [] and block.crossing_sustain_counts[self.main_crossing] != 1):
             self.main_crossing += 1
             if self.main_crossing >= len(block.crossing_sustain_counts):
                 ValueError("RandomGen: no crossing found with sustain count 1")
